@@ -380,6 +380,7 @@ class FilterAnalyzer(desc.ResetMixin):
 
         sig = ts.TimeSeries(data=self._ts.data,
                             sampling_rate=self._ts.sampling_rate,
+                            time_unit=self._ts.time_unit,
                             t0=self._ts.t0)
 
         # Lowpass:
